@@ -183,6 +183,115 @@ def r10_8(chk, P):
     return n
 
 
+
+def r10_10(chk, P, rule='R10.10'):
+    chk.rule(rule, 'the first audio page of a link is delimited by dataoffsets[link], never by the start of the link: a read of '
+             'vf->offsets[L] (the byte position of link L\'s first header page) is used only (a) as the upper end offsets[L+1] of '
+             'the previous link, (b) in raw byte arithmetic with another element of offsets[]/dataoffsets[], or (c) in a '
+             'comparison with a raw position that comes from the caller (a value whose provenance is the function\'s own '
+             'parameters); a page position or bisection bound compared with offsets[L] treats the header pages as audio '
+             '(or no page as the first), which only a link whose audio fits in one page -- or a seek onto a link\'s first page '
+             '-- shows.  Uses are followed through single-assignment locals')
+    import prov
+    n = 0
+    for F in P.functions():
+        if not F.file.endswith('vorbisfile.c'):
+            continue
+        reads = []
+        for e in F.nodes('sub'):
+            nd = F.ex[e]
+            b = F.ex[F.strip_casts(nd['c'][0])]
+            if not (b['k'] == 'member' and b.get('record') == VF and b['field'] == 'offsets'):
+                continue
+            par = F.sparent.get(e)
+            c = e
+            while par is not None and F.ex[par]['k'] == 'cast':
+                c, par = par, F.sparent.get(par)
+            if par is not None and F.ex[par]['k'] == 'assign' and F.ex[par]['c'][0] == c:
+                continue        # a store into the table
+            reads.append(e)
+        if not reads:
+            continue
+        A = prov.Prov(P, F, lambda F_, n_: None, lambda F_, c_: set(), array_fields=('offsets', 'dataoffsets'))
+
+        def is_table_elem(x):
+            x = F.strip_casts(x)
+            nd = F.ex[x]
+            if nd['k'] != 'sub':
+                return False
+            b = F.ex[F.strip_casts(nd['c'][0])]
+            return b['k'] == 'member' and b.get('record') == VF and b['field'] in ('offsets', 'dataoffsets')
+
+        def upper_end(e):
+            ix = F.ex[F.strip_casts(F.ex[e]['c'][1])]
+            if ix['k'] == 'bin' and ix['op'] == '+':
+                return any(F.ex[F.strip_casts(c)]['k'] == 'int' and F.ex[F.strip_casts(c)]['v'] == 1 for c in ix['c'])
+            return False
+
+        def elem_of(x):
+            while x is not None and x not in F.elem_set:
+                x = F.sparent.get(x)
+            return x
+
+        def classify(x, depth=0):
+            """use context of value node x -> list of (ok, text)"""
+            par = F.sparent.get(x)
+            c = x
+            while par is not None and F.ex[par]['k'] == 'cast':
+                c, par = par, F.sparent.get(par)
+            if par is None:
+                return [(True, 'value unused')]
+            pn = F.ex[par]
+            if pn['k'] == 'bin' and pn['op'] == '-':
+                other = pn['c'][1] if pn['c'][0] == c else pn['c'][0]
+                if is_table_elem(other):
+                    return [(True, 'raw byte arithmetic with another table element')]
+                return [(False, f'`{F.s(par)}`: subtracted from / by a value that is not a table element')]
+            if pn['k'] == 'bin' and pn['op'] in ('<', '<=', '>', '>=', '==', '!='):
+                other = pn['c'][1] if pn['c'][0] == c else pn['c'][0]
+                at = elem_of(par)
+                atoms = A.prov_at(other, at) if at is not None else frozenset({('opaque', '?')})
+                if atoms and all(a[0] == 'param' for a in atoms):
+                    return [(True, f'compared with the caller\'s raw position `{F.s(other)}`')]
+                return [(False, f'`{F.s(par)}`: the link start is compared with `{F.s(other)}`, which is not a raw position from the '
+                                f'caller ({sorted({a[0] for a in atoms})}) -- a page position is delimited by dataoffsets[]')]
+            tgt = None
+            if pn['k'] == 'decl':
+                for v in pn['vars']:
+                    if v.get('init') and F.strip_casts(v['init']) == F.strip_casts(c) and 'id' in v:
+                        tgt = v['id']
+            elif pn['k'] == 'assign' and pn['op'] == '=' and pn['c'][1] == c:
+                l = F.ex[F.strip_casts(pn['c'][0])]
+                if l['k'] == 'ref' and l['decl'].get('kind') == 'var':
+                    tgt = l['decl']['id']
+            if tgt is not None and depth < 2:
+                out = []
+                for r in F.nodes('ref'):
+                    rn = F.ex[r]
+                    if rn['decl'].get('id') == tgt and rn['decl'].get('kind') == 'var':
+                        rp = F.sparent.get(r)
+                        if rp is not None and F.ex[rp]['k'] == 'assign' and F.ex[rp]['c'][0] == r:
+                            continue
+                        out += classify(r, depth + 1)
+                return out or [(True, 'copied into a local that is never read')]
+            if pn['k'] in ('ret',):
+                return [(True, 'returned as a raw position')]
+            return [(False, f'`{F.s(par)[:80]}`: use of the link start that is neither raw arithmetic nor a comparison with the caller\'s position')]
+
+        k = 0
+        for e in sorted(reads, key=lambda x: F.loc(x)):
+            if upper_end(e):
+                n += 1
+                chk.ob(rule, F.name, f'offsets-read#{k}', True, F.where(e), f'`{F.s(e)}` is the upper end of the previous link')
+                k += 1
+                continue
+            res = classify(e)
+            bad = [t for ok, t in res if not ok]
+            n += 1
+            chk.ob(rule, F.name, f'offsets-read#{k}', not bad, F.where(e), bad[0] if bad else '; '.join(sorted({t for _, t in res})))
+            k += 1
+    return n
+
 def run(chk, P):
     E = getattr(P, '_effects', None) or k3.Effects(P)
     P._effects = E
@@ -229,6 +338,12 @@ def run(chk, P):
     chk.floor('R10.7', 1)
     r10_8(chk, P)
     chk.floor('R10.8', 4)
+    chk.rule('R10.9', 'streaming delivery decodes every link with that link\'s own set-up: per-link tables are not indexed by the link '
+             'counter of a streaming handle, which has one table entry while the counter grows (same obligations as R09.11)')
+    c09.r09_11(common.Proxy(chk, 'R10.9'), P, rule='R10.9')
+    chk.floor('R10.9', 5)
+    r10_10(chk, P)
+    chk.floor('R10.10', 4)
     chk.trusted += ['clang 14 front end', 'K3 effect analysis', 'call graph']
     return ('Path and call-graph rules decide the structural conditions under which delivery cannot matter: short reads commit '
             'exactly what arrived, the caller\'s length clamps before anything is consumed or filtered, and every access mode '
